@@ -495,6 +495,8 @@ def mk_app(f, args=(), kw=()):
         return App(f, (a, enc))
     if f in ("hashlib.sha256", "sha256") and n == 1:
         return App("sha256obj", args)
+    if f in ("hashlib.sha256", "sha256") and n == 0 and not kw:
+        return App("sha256obj", (Const(b""),))          # sha256() then .update(x)...
     if f == ".digest" and n == 1 and is_app(args[0], "sha256obj"):
         return App("H", args[0].args)                   # sha256(x).digest()
     if f == ".hexdigest" and n == 1 and is_app(args[0], "sha256obj"):
